@@ -2028,7 +2028,7 @@ def find_cache_meta(
         # If either low-level buffer format or high-level cache layout changed, we
         # cannot use the cache files, even with --skip-version-check.
         # TODO: switch to something like librt.internal.read_byte() if this is slow.
-        if meta[0] != cache_version() or meta[1] != CACHE_VERSION:
+        if len(meta) < 2 or meta[0] != cache_version() or meta[1] != CACHE_VERSION:
             manager.log(f"Metadata abandoned for {id}: incompatible cache format")
             return None
         data_io = ReadBuffer(meta[2:])
